@@ -7,6 +7,7 @@ import importlib
 import inspect
 import numbers
 import operator
+import threading
 import warnings
 
 _AUTO_BACKEND = None
@@ -225,16 +226,20 @@ class CachedProcessPoolExecutor:
     def __init__(self):
         self._pool = None
         self._n_workers = -1
+        self._lock = threading.Lock()
         atexit.register(self.shutdown)
 
     def __call__(self, n_workers=None):
-        if n_workers != self._n_workers:
-            from concurrent.futures import ProcessPoolExecutor
+        # n.b. several threads might ask for the pool at the same time, and
+        # one must not shut down the pool another has just been handed
+        with self._lock:
+            if n_workers != self._n_workers:
+                from concurrent.futures import ProcessPoolExecutor
 
-            self.shutdown()
-            self._pool = ProcessPoolExecutor(n_workers)
-            self._n_workers = n_workers
-        return self._pool
+                self.shutdown()
+                self._pool = ProcessPoolExecutor(n_workers)
+                self._n_workers = n_workers
+            return self._pool
 
     def is_initialized(self):
         return self._pool is not None
@@ -259,16 +264,20 @@ class CachedThreadPoolExecutor:
     def __init__(self):
         self._pool = None
         self._n_workers = -1
+        self._lock = threading.Lock()
         atexit.register(self.shutdown)
 
     def __call__(self, n_workers=None):
-        if n_workers != self._n_workers:
-            from concurrent.futures import ThreadPoolExecutor
+        # n.b. several threads might ask for the pool at the same time, and
+        # one must not shut down the pool another has just been handed
+        with self._lock:
+            if n_workers != self._n_workers:
+                from concurrent.futures import ThreadPoolExecutor
 
-            self.shutdown()
-            self._pool = ThreadPoolExecutor(n_workers)
-            self._n_workers = n_workers
-        return self._pool
+                self.shutdown()
+                self._pool = ThreadPoolExecutor(n_workers)
+                self._n_workers = n_workers
+            return self._pool
 
     def is_initialized(self):
         return self._pool is not None
